@@ -318,8 +318,21 @@ func judgeC17(rep *lib.Report, c *lib.Ctx, ln *printerLine, res *realResult, hoo
 			}
 		}
 	}
+	if currentSlice != "hook" && currentSlice != "" {
+		// the statement-level expectations below are written for the shapes of the hook slice (one directive per
+		// operand, the second of two %w a misuse); other slices run with the hook for drift and for the clauses above
+		return
+	}
+	nverbs := len(verbs) // directives in the format
 	if ln.C.E == "Errorf" && len(verbs) == 2 && verbs[1] == 'w' {
 		verbs = verbs[:1] // the second %w is a misuse: bad verb, no dispatch
+	}
+	ff := c.Subst(ln.C.F)
+	reordered := bytes.Count(ff, []byte("[")) > 0 && !(bytes.Count(ff, []byte("[")) == 1 && bytes.Contains(ff, []byte("[1]")) && nverbs == 1)
+	if ln.C.E != "Sprint" && (bytes.ContainsRune(ff, '*') || reordered || nverbs != len(ln.C.Ts)) {
+		// the statement-level expectation below pairs directives with operands one to one; formats that consume
+		// operands as widths, re-order them or leave some MISSING / EXTRA are the errorf slice's subject (C15)
+		return
 	}
 	want := expectedHookCalls(ln.C.Ts, ln.C.E, verbs)
 	var got []lib.CallRec
